@@ -96,12 +96,18 @@ def encList {α} (enc : α → Bytes) (l : List α) : Bytes :=
 def encVec {α} (enc : α → Bytes) (l : List α) : Bytes :=
   encVarint l.length ++ encList enc l
 
+/-- does `bs` have at least `n` elements (looks at no more than `n` of them) -/
+def hasAtLeast : Nat → Bytes → Bool
+  | 0, _ => true
+  | _ + 1, [] => false
+  | n + 1, _ :: bs => hasAtLeast n bs
+
 /-- every item consumes at least one byte, so a length larger than the remaining input fails
     without iterating (serde caps its preallocation, then fails at end of input) -/
 def decVec {α} (dec : Bytes → Option (α × Bytes)) (bs : Bytes) : Option (List α × Bytes) :=
   match decVarint bs with
   | none => none
-  | some (n, r) => if n > r.length then none else decN dec n r
+  | some (n, r) => if hasAtLeast n r then decN dec n r else none
 
 /-! ### DistType / Dist -/
 
